@@ -479,13 +479,17 @@ impl PartialEq for LuaUnionType {
                 if a.len() != b.len() {
                     return false;
                 }
-                let mut a_set: HashSet<_> = a.iter().collect();
-                for item in b {
-                    if !a_set.remove(item) {
-                        return false;
+                // Compare as multisets with `==`, not through a hash set: `Hash for LuaType`
+                // hashes several variants by allocation address, so equal members in different
+                // allocations would (almost always, but not always) be reported as different.
+                let mut used = vec![false; b.len()];
+                for item in a {
+                    match (0..b.len()).find(|&i| !used[i] && &b[i] == item) {
+                        Some(i) => used[i] = true,
+                        None => return false,
                     }
                 }
-                a_set.is_empty()
+                true
             }
             _ => false,
         }
